@@ -453,7 +453,10 @@ impl Engine {
                 let values: Vec<u64> = order.iter().map(|stats_type| summary.get(stats_type).unwrap_or(u64::MAX)).collect();
                 let (hits, misses) = (values[0], values[1]);
                 let expected_ratio = if hits + misses == 0 { 0.0 } else { hits as f64 / (hits + misses) as f64 };
-                let ratio_note = if summary.hit_ratio.to_bits() == expected_ratio.to_bits() { String::new() } else { format!(" ratio-mismatch:{}:{}", summary.hit_ratio, expected_ratio) };
+                let expected_percentage = (expected_ratio * 100.0).round();
+                let ratio_note = if summary.hit_ratio.to_bits() != expected_ratio.to_bits() { format!(" ratio-mismatch:{}:{}", summary.hit_ratio, expected_ratio) }
+                    else if summary.hit_ratio_as_percentage().to_bits() != expected_percentage.to_bits() { format!(" ratio-mismatch:percentage:{}:{}", summary.hit_ratio_as_percentage(), expected_percentage) }
+                    else { String::new() };
                 format!("stats {}{}", values.iter().map(|v| v.to_string()).collect::<Vec<_>>().join(","), ratio_note)
             }
             Ev::Worker => match self.step_background("worker") { Ok(()) => "worked".to_string(), Err(why) => format!("hang {}", why.replace(' ', "_")) },
